@@ -81,6 +81,14 @@ def _read_only(ck: Checker, prog: Program):
             ck.violation("C20.R1", func, text,
                          f"{f.qualname} changes the object it displays: {describe_effect(e)}",
                          loc=e.chain[0].loc, path=chain_text(e))
+        # what is drawn is the object's state at the time of the call: the function keeps nothing in module-level state of the
+        # package (a mesh / curve remembered from an earlier call outlives a later rejection or range change)
+        glob = [e for e in s.effects if e.origin[0] == "G"]
+        for (func, text), es in group_effects(prog, glob).items():
+            e = es[0]
+            ck.violation("C20.R1", func, text,
+                         f"{f.qualname} keeps state between calls: {describe_effect(e)} - what it draws next time may be the state of an earlier call",
+                         loc=e.chain[0].loc, path=chain_text(e))
     return funcs
 
 
